@@ -7,7 +7,7 @@ wt=/tmp/mutrun/wt_$$
 mkdir -p /tmp/mutrun
 git -C /repo worktree add -q --detach "$wt" HEAD || exit 2
 cp /repo/src/execnet/_version.py "$wt/src/execnet/"
-( cd "$wt" && git apply "$patch" ) || { echo "patch does not apply"; git -C /repo worktree remove --force "$wt"; exit 2; }
+( cd "$wt" && { git apply "$patch" 2>/dev/null || git apply -3 "$patch"; } ) || { echo "patch does not apply"; git -C /repo worktree remove --force "$wt"; exit 2; }
 cd /verif
 start=$(date +%s)
 VERIF_REPO="$wt" VERIF_EVIDENCE_DIR=/tmp/mutrun/ev_$$ timeout 1500 ./check "$id" --tier "$tier" > /tmp/mutrun/out_$$.txt 2>&1
